@@ -2,4 +2,4 @@
 # usage: runvariants_par.sh <variant…> — all 20 quick checks against each variant (scratch copies), 8 variants at a
 # time; prints only the reports, prefixed by the variant
 cd /verif
-printf '%s\n' "$@" | xargs -P 8 -I{} bash -c 's=$(mktemp -d /tmp/goatb.XXXX); rsync -a --exclude .git /repo/ $s/; patch -p1 -s -d $s -i /verif/seeded/{}/patch.diff || echo "PATCH FAILED {}"; mkdir -p $s/.verif; cp /verif/known_findings.json $s/.verif/; for i in 01 02 03 04 05 06 07 08 09 10 11 12 13 14 15 16 17 18 19 20; do GOAT_REPO=$s VERIF_DIR=$s/.verif /verif/bin/goatcheck C$i quick 2>&1 | grep -E "^(VIOLATION C|UNDECIDED|BROKEN)" | cut -c1-220 | sed "s/^/{}: /"; done; rm -rf $s'
+printf '%s\n' "$@" | xargs -P 8 -I{} bash -c 's=$(mktemp -d /tmp/goatb.XXXX); rsync -a --exclude .git /repo/ $s/; patch -p1 -s -d $s -i /verif/seeded/{}/patch.diff || echo "PATCH FAILED {}"; mkdir -p $s/.verif; cp /verif/known_findings.json $s/.verif/; for i in ${PROPS:-01 02 03 04 05 06 07 08 09 10 11 12 13 14 15 16 17 18 19 20}; do GOAT_REPO=$s VERIF_DIR=$s/.verif /verif/bin/goatcheck C$i quick 2>&1 | grep -E "^(VIOLATION C|UNDECIDED|BROKEN)" | cut -c1-220 | sed "s/^/{}: /"; done; rm -rf $s'
